@@ -649,6 +649,11 @@ def run(chk: Check):
         chk.sample({"request": r, "sha256": ref["texts"][str(r["rid"])]["sha"], "identical_in_processes": len(results)})
     chk.extra["searcher"] = "the sweep above is the searcher (always run); replay = request, two (seed, order) runs, diff"
 
+    # tie to the source by regeneration: the listed definitions are re-translated from /repo by py2coq on
+    # every run and PROVED equal to the hand models (coq/props/TIE.v), plus a translator self-check
+    from props._tie import run_tie
+    run_tie(chk, ['desugar', 'variables', 'index_participants'])
+
 
 def replay(chk: Check, payload, quiet=False):
     kind = payload.get("kind")
